@@ -86,6 +86,7 @@ def run(prop, tier):
     env.setdefault("PYTHONHASHSEED", "0")
     env["PYTHONDONTWRITEBYTECODE"] = "1"
     env["OVLD_VERIF"] = "1"
+    env["VF_TIER"] = tier
     procs = []
     shards = [-1] + list(range(nshards))
     for sh in shards:
